@@ -2,9 +2,12 @@
    satisfiability.  ONLY statements; every proof is `exact <lemma>`.
    Models: Fam_pebbling.v, Fam_ordering.v, Fam_cpls.v, Fam_pitfall.v, Fam_ramsey.v
    (each formula is a list of builder calls; the clause families are [clauses_ir F]).
-   Two theorems are FALSE of cnfgen as it is and are stated as refutations of the
-   faithful model next to the theorem for the documented behaviour:
-   pitfall (D31, shift_edgelit) and van der Waerden with a progression length 1 (D12). *)
+   Two full statements are FALSE of a faithful model of cnfgen and are stated as refutations of
+   the `as_is` model variant next to the theorem for the documented (`spec`) variant:
+   pitfall (D31, shift_edgelit: still in the code) and van der Waerden with a progression of
+   length 1 (D12: repaired in /repo by commit f79a20a, so the code now follows [vdw_spec_formula];
+   [vdw_formula] is the code before that commit).  The correspondence run accepts agreement with
+   either variant and reports the `as_is` one with a failing input. *)
 From Coq Require Import ZArith List Bool.
 From Cnfgen Require Import Sem Comb Linear IR SemFacts IRFacts C03_Util C03_UtilFacts
   Fam_pebbling Fam_pebbling_Facts Fam_ordering Fam_ordering_Facts Fam_ramsey Fam_ramsey_Facts
@@ -168,7 +171,7 @@ Theorem C03_vdw_renderings : forall aps N ks a, aps_correct aps N ks ->
 Proof. intros aps N ks a H. split; [apply to_cnf_sem|apply to_opb_sem]; exact (vdw_ir_ok aps N ks H). Qed.
 Print Assumptions C03_vdw_renderings.
 
-(* D12: "a formula for every valid argument" is false of the code as it is ... *)
+(* D12: "a formula for every valid argument" was false of the code before commit f79a20a ([vdw_formula]) ... *)
 Theorem C03_vdw_total_refuted : ~ vdw_total_statement vdw_formula.
 Proof. exact vdw_total_refuted. Qed.
 Print Assumptions C03_vdw_total_refuted.
